@@ -130,6 +130,23 @@ mod ssl;
 mod test;
 mod util;
 
+/// Verification runtime (scheduler, virtual clock, in-memory network); its source lives
+/// outside this repository and is only compiled in with `--cfg tiny_http_verif`.
+#[cfg(tiny_http_verif)]
+#[allow(missing_docs)]
+pub mod verif_rt {
+    include!(concat!(env!("TINY_HTTP_VERIF_RT"), "/rt.rs"));
+}
+
+/// Internal components re-exported for component-level verification harnesses.
+#[cfg(tiny_http_verif)]
+pub mod verif_api {
+    pub use crate::util::{
+        EqualReader, MessagesQueue, SequentialReader, SequentialReaderBuilder, SequentialWriter,
+        SequentialWriterBuilder, TaskPool,
+    };
+}
+
 /// The main class of this library.
 ///
 /// Destroying this object will immediately close the listening socket and the reading
